@@ -87,6 +87,9 @@ sut_inst_t sut_tz_utc(sut_inst_t local, int zh);
 sut_inst_t sut_tz_loc(sut_inst_t utc, int zh);
 int sut_tz_offs(sut_inst_t utc, int zh);       /* seconds */
 
+/* C09: direct filler call on an exact-size block; -1 if the rule is not accepted */
+int sut_fill(const char *rrule, sut_inst_t proto, int *count_out);
+
 uint32_t sut_hash(const char *s, size_t n);
 void sut_reset(void);
 
